@@ -34,6 +34,7 @@ def strict_of(cfg):
 
 def expected_de(v, hr, kind, payload, strict):
     """property-level expectation for one event: ('ok', bin) | ('err',)"""
+    kind = {"bstr": "str", "bbytes": "bytes"}.get(kind, kind)      # borrowed events carry the same data
     if kind in ("str", "string", "char") or (kind in ("bytes", "bytebuf") and hr):
         if not hr:
             return ("err",)
@@ -136,6 +137,13 @@ def mock_cases(rng, tier, strict):
                 cases.append("serde_mock_de %s 1 %s %s" % (v, kind, hx(d)))
         for bs in nonascii_strings(rng, v):
             cases.append("serde_mock_de %s 1 %s %s" % (v, rng.choice(["str", "string"]), hx(bs)))
+        # borrowed events (zero-copy formats), a sequence of u8, a newtype wrapper, Some(..)
+        gb = suites.plausible_bin(rng, v)
+        gs = suites.ref_format(v, gb, True).encode()
+        for hr in (0, 1):
+            for kind, pl in (("bstr", gs), ("bstr", gs[2:].lower()), ("bstr", gs[:-1]), ("bbytes", gb), ("bbytes", gs), ("bbytes", gb[:-1]),
+                             ("bbytes", gb + b"\x00"), ("seq", gb), ("seq", gs), ("newtype", gs), ("some", gs)):
+                cases.append("serde_mock_de %s %d %s %s" % (v, hr, kind, hx(pl)))
         for kind in ("u8", "u64", "i64", "f64", "bool", "unit", "none", "char"):
             for hr in (0, 1):
                 cases.append("serde_mock_de %s %d %s %s" % (v, hr, kind, hx(b"T")))
